@@ -106,3 +106,69 @@ Definition parse_float (s : bstr) : option fl :=
           let p5 := (5 ^ (- k))%Z in
           if (m mod p5 =? 0)%Z then mk_fl (m / p5)%Z k else None
   end.
+
+(* ---- strconv.ParseFloat(s, 64) on EVERY float literal the scanner emits ----
+   ParseFloat returns the float64 nearest to the decimal value (round to nearest, ties to even;
+   strconv guarantees correct rounding), silently 0 or a subnormal on underflow, and +-Inf with
+   ErrRange when the rounded value exceeds the largest float64.  [parse_float] above is the
+   special case of a decimal that is exactly a float64 of Num.v's safe window; [parse_float_round]
+   is total on the scanner's float syntax: it computes the correctly rounded value with integer
+   arithmetic.  The result is always a genuine float64 m * 2^e (m odd, |m| < 2^53, e >= -1074,
+   value < 2^1024) but may lie outside the window of Num.mk_fl (exponent beyond (-1000, 900)):
+   arithmetic on such a value re-checks its own result. *)
+Inductive float_res :=
+| FRVal (f : fl)      (* err == nil *)
+| FRRange             (* ErrRange: the parser reports it through t.error *)
+| FRSyntax.           (* not of the scanner's float syntax (see [parse_float_round]) *)
+
+(* n / (d * 2^e) as a fraction of integers; n >= 0, d > 0 *)
+Definition scale_num (n e : Z) : Z := if (0 <=? e)%Z then n else (n * 2 ^ (- e))%Z.
+Definition scale_den (d e : Z) : Z := if (0 <=? e)%Z then (d * 2 ^ e)%Z else d.
+Definition floor_div_pow2 (n d e : Z) : Z := (scale_num n e / scale_den d e)%Z.
+(* the integer nearest to n / (d * 2^e), ties to even *)
+Definition round_div_pow2 (n d e : Z) : Z :=
+  let nn := scale_num n e in
+  let dd := scale_den d e in
+  let q := (nn / dd)%Z in
+  let r := (nn mod dd)%Z in
+  if (2 * r <? dd)%Z then q
+  else if (dd <? 2 * r)%Z then (q + 1)%Z
+  else if Z.even q then q else (q + 1)%Z.
+
+(* the float64 nearest to n / d (n, d > 0) with the given sign.  The exponent e is chosen so that
+   2^52 <= n / (d * 2^e) < 2^53, but not below -1074 (subnormals); the spacing of float64 values
+   around n/d is then 2^e, so rounding the quotient to an integer is IEEE rounding. *)
+Definition round_ratio (neg : bool) (n d : Z) : float_res :=
+  let e1 := (Z.log2 n - Z.log2 d - 53)%Z in
+  let e2 := Z.max e1 (-1074) in
+  let e := if (two53 <=? floor_div_pow2 n d e2)%Z then (e2 + 1)%Z else e2 in
+  match round_div_pow2 n d e with
+  | Zpos p =>
+      if (1024 <=? Z.log2 (Zpos p) + e)%Z then FRRange
+      else let '(m, e') := strip2 p e in FRVal (FFin (if neg then Zneg m else Zpos m) e')
+  | _ => FRVal (FZero neg)
+  end.
+
+(* digits * 10^k: beyond 10^400 every non-zero literal overflows, below 10^-400 it rounds to zero
+   (the least subnormal is about 4.9e-324), so the power of ten computed is bounded by the length
+   of the literal + 400 whatever the exponent digits say *)
+Definition float_of_lit (l : float_lit) : float_res :=
+  let ds := lit_int l ++ lit_frac l in
+  let d := dec_val ds 0 in
+  if d =? 0 then FRVal (FZero (lit_neg l))
+  else
+    let ex := Z.of_N (dec_val (lit_exp l) 0) in
+    let k := ((if lit_eneg l then - ex else ex) - Z.of_nat (length (lit_frac l)))%Z in
+    if (400 <? k)%Z then FRRange
+    else if (k + Z.of_nat (length ds) <? -400)%Z then FRVal (FZero (lit_neg l))
+    else if (0 <=? k)%Z then round_ratio (lit_neg l) (Z.of_N d * 10 ^ k)%Z 1
+    else round_ratio (lit_neg l) (Z.of_N d) (10 ^ (- k))%Z.
+
+(* [FRSyntax]: the text is not of the form -? D+ (. D+)? (e [+-]? D+)?.  The scanner sends no such
+   float item (scanNumber; tied by the token correspondence on every run, not proved), and what
+   ParseFloat makes of other texts ("+1", ".5", "1E5", "inf", "0x1p-2", ...) is not modelled. *)
+Definition parse_float_round (s : bstr) : float_res :=
+  match split_float s with
+  | None => FRSyntax
+  | Some l => float_of_lit l
+  end.
